@@ -19,3 +19,7 @@ func IDs() []string {
 	}
 	return out
 }
+
+func init() {
+	core.Startup = func() { precalibrate(300) }
+}
